@@ -44,6 +44,26 @@ CLAIMED["C14"] = {
             "assumptions of the op semantics; durability (fsync) and non-POSIX file systems are outside the model.",
     "design": "DESIGN.md §5 C14",
 }
+CLAIMED["C15"] = {
+    "text": "Gen/Wiring.v is regenerated from the source (ast + inspect.signature) on every run: each call site CLI->reformat_files->"
+            "reformat_file->reformat_text->fill_markdown/fill_text becomes a Coq function on the option record; theorem: every layer is the "
+            "identity (keyword and positional bindings), --auto table = the documented six switches. Hand model of the control flow with "
+            "reformat_text, file reading and stdin universally quantified: every delivered byte string is reformat_text(input, options); "
+            "each file alone; usage errors perform no action. The model is run against cli.main over the option product (complete in "
+            "thorough) and real subprocess / file-API runs.",
+    "note": "argparse's tokenisation of argv is exercised, not modelled; one genuine defect (inplace with stdin among files) was repaired (fix: f28f6da).",
+    "design": "DESIGN.md §5 C15",
+}
+CLAIMED["C16"] = {
+    "text": "Coq: merge_cli_with_config modelled generically over any duplicate-free field list with the pointwise precedence theorem; "
+            "find_config_file modelled over directory chains with the nearest-directory / filename-order theorems; certificates by "
+            "vm_compute over tables translated from the source (explicit-flag table complete, sentinel parser spellings, auto-locked "
+            "set, accepted keys, resolver wiring). Both models run against the implementation; the complete settings x flag x config x "
+            "auto x file-kind x spelling x depth product is enumerated on cli.main with recorders at reformat_files / FileResolver.",
+    "note": "Known findings D-19 (config key include ignored) and D-20 (clustered short flags not seen as explicit) are listed; "
+            "tomllib is exercised, not modelled.",
+    "design": "DESIGN.md §5 C16",
+}
 PENDING_REASON = "check not built yet in this revision (work in progress; see DESIGN.md §7 staging)"
 
 def main():
